@@ -306,7 +306,8 @@ static void compare_frame(vmc::Ctx& ctx, const Case& c, const std::string& tag, 
               const double ideal = s != 0 ? v / s : 0;
               if (s == 0 && v != 0) cause = "scale_underflow_to_zero";
               else if (s != 0 && (ideal < lo - 0.5 || ideal > hi + 0.5)) cause = "scale_too_small_for_type";
-              else if (have_q && std::fabs(q - ideal) > 1 + 16 * EPSF * std::fabs(ideal))
+              else if (std::fabs(s) < 1.17549435e-38) cause = "scale_denormal"; // scale factor below FLT_MIN (tiny data): 1/scale overflows in the -ffast-math build of STIR
+              else if (have_q && std::fabs(q - ideal) > 1 + (16 * EPSF + 5.1e-6) * std::fabs(ideal)) // ideal uses the header text of the scale (6 digits)
                 cause = std::string("stored_integer_wrong;ideal_beyond_int32=") + (std::fabs(ideal) >= 2147483647.0 ? "1" : "0");
               else if (err <= b2) cause = "scale_factor_text_6_digits";
               else cause = "quantisation";
@@ -446,10 +447,13 @@ static void run_case(vmc::Ctx& ctx, const Case& c, int sweep /*0 none, 1 strided
     }
 
   // frames whose values are all <= 0 (some < 0) written to an unsigned type: find_scale_factor yields a negative scale
+  // (per frame: a failure is attributed to this only if it occurs in such a frame, or if the file cannot be read at all)
   bool allneg_unsigned = false;
-  if (is_unsigned_type(c.T))
-    for (auto& fr : frames) { const float mx = fr->find_max(), mi = fr->find_min(); if (mx <= 0 && mi < 0) allneg_unsigned = true; }
-  if (par && is_unsigned_type(c.T)) for (int k = 1; k <= 2; ++k) { auto d = par_im->construct_single_density(k); if (d.find_max() <= 0 && d.find_min() < 0) allneg_unsigned = true; }
+  std::vector<char> frame_allneg(nframes, 0);
+  if (is_unsigned_type(c.T) && !par)
+    for (int k = 0; k < nframes; ++k) { const float mx = frames[k]->find_max(), mi = frames[k]->find_min(); if (mx <= 0 && mi < 0) frame_allneg[k] = 1; }
+  if (par && is_unsigned_type(c.T)) for (int k = 1; k <= 2; ++k) { auto d = par_im->construct_single_density(k); if (d.find_max() <= 0 && d.find_min() < 0) frame_allneg[k - 1] = 1; }
+  for (char a : frame_allneg) if (a) allneg_unsigned = true;
   if (allneg_unsigned) ctx.count("cases_with_all_negative_frame_into_unsigned_type");
 
   // ---- write
@@ -576,8 +580,10 @@ static void run_case(vmc::Ctx& ctx, const Case& c, int sweep /*0 none, 1 strided
   // ---- compare
   std::map<std::string, std::string> raws;
   for (auto& d : data_files) raws[d] = slurp(d);
+  int bad_frame = -1;
   for (int k = 0; k < nframes && !f.bad(); ++k)
     {
+      bad_frame = k;
       const std::string& raw = raws[parts[k].data_file];
       if (!unsupported_type && (long)raw.size() < parts[k].offset + nvox * nb)
         {
@@ -608,11 +614,12 @@ static void run_case(vmc::Ctx& ctx, const Case& c, int sweep /*0 none, 1 strided
       if (c.cont == "single") compare_exam(ctx, c, "single", frames[0]->get_exam_info(), r->get_exam_info(), true, f);
       else if (c.cont == "multi") compare_exam(ctx, c, "frame " + std::to_string(k + 1), frames[k]->get_exam_info(), r->get_exam_info(), true, f);
     }
+  if (!f.bad()) bad_frame = -1;
   if (!f.bad() && dyn) compare_exam(ctx, c, "container", dyn_im->get_exam_info(), rd->get_exam_info(), true, f);
   if (!f.bad() && par) compare_exam(ctx, c, "container", par_im->get_exam_info(), rp->get_exam_info(), false, f);
   if (f.bad())
     {
-      if (allneg_unsigned) ctx.violation(kneg + "wrong_content", cs, "a frame with only negative values written to an unsigned type, write_to_file returned Succeeded::yes: " + f.key + ": " + f.msg);
+      if (bad_frame >= 0 && frame_allneg[bad_frame] && f.key.compare(0, 11, "clause=exam") != 0) ctx.violation(kneg + "wrong_content", cs, "a frame with only negative values written to an unsigned type, write_to_file returned Succeeded::yes: " + f.key + ": " + f.msg);
       else ctx.violation(f.key, cs, f.msg);
       cleanup();
       return;
